@@ -2,12 +2,14 @@
 # usage: run.sh <property-id> <quick|thorough>
 # Rebuilds vmc against /repo's current working tree (hooks on: -tags verif) and runs one check.
 set -u
-cd /verif/vmc || exit 2
+ROOT=$(cd "$(dirname "$0")" && pwd)
+export VERIF_ROOT=$ROOT
+cd "$ROOT/vmc" || exit 2
 export GOFLAGS=-mod=mod GOWORK=off GOPROXY=off GOSUMDB=off GOTOOLCHAIN=local CGO_ENABLED=0
-mkdir -p /verif/bin
+mkdir -p "$ROOT/bin"
 OV=()
 if [ -n "${VERIF_OVERLAY:-}" ]; then OV=(-overlay "$VERIF_OVERLAY"); fi
-if ! go build -tags verif "${OV[@]}" -o /verif/bin/vmc . 2>/verif/bin/build.err; then
-  echo "BUILD FAILED (the tree under /repo does not compile with -tags verif):"; cat /verif/bin/build.err; exit 2
+if ! go build -tags verif "${OV[@]}" -o "$ROOT/bin/vmc" . 2>"$ROOT/bin/build.err"; then
+  echo "BUILD FAILED (the tree under /repo does not compile with -tags verif):"; cat "$ROOT/bin/build.err"; exit 2
 fi
-exec /verif/bin/vmc check "$1" --tier "${2:-quick}"
+exec "$ROOT/bin/vmc" check "$1" --tier "${2:-quick}"
